@@ -104,6 +104,21 @@ class SymFactory:
         v = self._reg(name, z3.String(name))
         return SStr([('sym', v)])
 
+    def str_for(self, name, key, corpus_by_key):
+        return self.str_sym(name)
+
+    def int_set(self, name):
+        """an arbitrary collection of ints, known through membership only"""
+        from .values import SPredSet
+        from .interp import zint
+        F = z3.Function(name, z3.IntSort(), z3.BoolSort())
+        return SPredSet(lambda x: F(zint(x)), name)
+
+    def str_subset(self, name, universe):
+        """an arbitrary sub-collection of a finite universe of strings"""
+        from .values import GList
+        return GList([(self._reg(f'{name}.{u}', z3.Bool(f'{name}.{u}')), u) for u in universe])
+
     def new(self, cls, fields, ctor=None):
         if not isinstance(cls, ClassInfo):
             raise Unsupported('g.new needs a repository class')
@@ -207,6 +222,9 @@ class SymElemFactory:
         v = self._reg(name, z3.String(self.prefix + name))
         return SStr([('sym', v)])
 
+    def str_for(self, name, key, corpus_by_key):
+        return self.str_sym(name)
+
     def new(self, cls, fields, ctor=None):
         o = SObj(cls, False)
         for k, v in fields.items():
@@ -297,6 +315,18 @@ class ConcreteFactory:
             return corpus[0] if corpus else ''
         return str(self._get(name, d))
 
+    def int_set(self, name):
+        if self.rng is not None:
+            return [k for k in range(0, 6) if self.rng.random() < 0.5]
+        return [k for k in range(0, 6) if self.values.get(f'{name}.{k}')]
+
+    def str_subset(self, name, universe):
+        return [u for u in universe if self._get(f'{name}.{u}', lambda: (self.rng.random() < 0.6) if self.rng else False)]
+
+    def str_for(self, name, key, corpus_by_key):
+        """a string whose random default depends on another (already chosen) value, e.g. the text of a sub-token on its category"""
+        return self.str_sym(name, corpus_by_key.get(key) or corpus_by_key.get(None))
+
     def new(self, cls, fields, ctor=None):
         if ctor is not None:
             obj = cls(*ctor)
@@ -383,6 +413,9 @@ class ConcreteElemFactory:
     def str_sym(self, name, corpus=None):
         return self.parent.str_sym(self.prefix + name, corpus)
 
+    def str_for(self, name, key, corpus_by_key):
+        return self.parent.str_for(self.prefix + name, key, corpus_by_key)
+
     def new(self, cls, fields, ctor=None):
         return self.parent.new(cls, fields, ctor)
 
@@ -433,11 +466,36 @@ class Registry:
             else:
                 raise RuntimeError(f'contract {ci.name}.{name}: no value for parameter {p}')
         saved = I.modular
-        I.modular = False           # spec code is executed, never replaced by contracts
+        if ci.kind == 'lemma':
+            I.modular = False       # lemma harnesses run the real code of the functions they compose (inlined, not by contract)
         try:
             return I.call_function(f, [], kwargs, force_inline=True)
         finally:
             I.modular = saved
+
+    def apply_closure_contract(self, I, ci: ContractInfo, c, args, kwargs):
+        """contract of a nested function: its clauses see the parameters and the captured variables of the defining scope"""
+        from .interp import Env
+        env = Env(c.module, c.cls, c.env.func, c.env)
+        I.bind_params(c.node, args, kwargs, env, c.env)
+        values = {}
+        e = c.env
+        while e is not None:
+            for k, v in e.vars.items():
+                values.setdefault(k, v)
+            e = e.parent
+        values.update(env.vars)
+        I.contract_uses.append((ci.name, I.cur_func, I.cur_line))
+        if ci.has('requires'):
+            pre = I.truth(self.call_clause(I, ci, 'requires', values))
+            I.oblige('pre', f'{ci.name}@{I.cur_line}', pre)
+            I.assume(pre)
+        if ci.has('raises'):
+            table = self.call_clause(I, ci, 'raises', values)
+            for exc, cond in table.items():
+                if I.branch(I.truth(cond)):
+                    I.raise_py(exc)
+        return self.call_clause(I, ci, 'model', values)
 
     def apply_contract(self, I, ci: ContractInfo, f: FuncInfo, args, kwargs):
         """Modular call: assert the precondition, take the exceptional exits the contract describes, return model()."""
